@@ -56,7 +56,14 @@ def match_types(writer_type, reader_type, named_schemas):
         except SchemaResolutionError:
             return False
     if writer_type == reader_type:
-        return True
+        if writer_type in AVRO_TYPES:
+            return True
+        # the same name can stand for different definitions on the two sides
+        writer_schema = named_schemas["writer"].get(writer_type)
+        reader_schema = named_schemas["reader"].get(reader_type)
+        if writer_schema is None or reader_schema is None:
+            return True
+        return match_types(writer_schema, reader_schema, named_schemas)
     # promotion cases
     elif writer_type == "int" and reader_type in ["long", "float", "double"]:
         return True
